@@ -249,7 +249,12 @@ def apply(pool, op):
         w.load_data(build_array(op["arr"]), **kw)
         return None
     if k == "append_arr":
-        arr = build_array(op["arr"])
+        if "self" in op["arr"]:
+            # the argument is a live view of the receiver's own buffer
+            a0, b0 = op["arr"]["self"]
+            arr = (w.data if kind_of(w) in ("D", "S") else w.raw_data)[a0:b0]
+        else:
+            arr = build_array(op["arr"])
         ts = op.get("ts")
         if ts is None:
             w.append(arr)
@@ -494,6 +499,13 @@ class OnlineGen:
             return op
         if k == "append_arr":
             a = arr_desc(rng, kind, dtype, ncols, bad=self.bad)
+            if cnt and rng.random() < 0.1:
+                # append a view of the receiver's own samples (w.append(w.raw_data[a:b]))
+                a0 = rng.randrange(0, cnt)
+                b0 = rng.randrange(a0, cnt + 1)
+                view = (w.data if kind in ("D", "S") else w.raw_data)[a0:b0]
+                rows = from_np(view) if not (kind == "D" and ncols == 0) else [[] for _ in range(b0 - a0)]
+                a = {"vals": rows, "ndim": 2 if kind == "D" else 1, "ncols": ncols, "dtype": dtype, "form": "own", "self": [a0, b0]}
             n = len(a["vals"])
             op = {"op": "append_arr", "i": j, "arr": a}
             if kind != "S":
@@ -555,7 +567,67 @@ class OnlineGen:
         return op
 
 
+def run_readonly(d):
+    """a waveform over a READ-ONLY borrowed buffer with spare capacity (outside the pool model): every rejected
+    operation must leave it unchanged, and timestamps must always match the sample count"""
+    import numpy as np
+    from nitypes.waveform import Timing
+    kind, n, spare = d["kind"], d["n"], d["spare"]
+    cls = cls_of(kind)
+    u = UNIT[FAM]
+    base = to_np([[j % 2] for j in range(n + spare)], d["dtype"])
+    if kind == "D":
+        base = base.reshape(n + spare, 1)
+    base.flags.writeable = False
+    tim = lambda b, k: Timing.create_with_irregular_interval([mk_dtm(FAM, (b + j) * u) for j in range(k)]) if d["irregular"] else None
+    kw = {} if kind == "S" or not d["irregular"] else {"timing": tim(0, n)}
+    w = cls(**{("data" if kind in ("D", "S") else "raw_data"): base}, sample_count=n, extended_properties={"k1": "a"}, **kw)
+
+    def obs():
+        s = snapshot(w)
+        # capacity is left out: NumPy lets a read-only owned array be resized, so a failed append may have grown it
+        # (a read-only buffer is not among the rejection causes C07 lists; C09 is about samples and timestamps)
+        return (s["count"], 0, s["start"], s["view"], s["timing"], sorted(s["props"].items()))
+
+    flags = []
+    for op in d["ops"]:
+        pre = obs()
+        k = op["k"]
+        arr = to_np([[1]] * op["m"], d["dtype"])
+        if kind == "D":
+            arr = arr.reshape(op["m"], 1)
+        src = lambda b: cls(**{("data" if kind in ("D", "S") else "raw_data"): arr.copy()}, extended_properties={"k2": "b"},
+                            **({} if kind == "S" or not d["irregular"] else {"timing": tim(b, op["m"])}))
+        try:
+            with warnings.catch_warnings():
+                warnings.simplefilter("ignore")
+                if k == "arr":
+                    if kind != "S" and d["irregular"]:
+                        w.append(arr, [mk_dtm(FAM, (50 + j) * u) for j in range(op["m"])])
+                    else:
+                        w.append(arr)
+                elif k == "wfm":
+                    w.append(src(60))
+                elif k == "list":
+                    w.append([src(70), src(80)])
+                elif k == "load":
+                    w.load_data(arr, copy=True)
+            raised = False
+        except Exception:
+            raised = True
+        post = obs()
+        if raised:
+            flags.append(post == pre)
+        t = post[4]
+        if kind != "S" and t["tss"] is not None:
+            flags.append(len(t["tss"]) == post[0])
+            flags.append(t["tss"] == sorted(t["tss"]) or t["tss"] == sorted(t["tss"], reverse=True))
+    return {"steps": [], "flags": flags}
+
+
 def run_impl(c):
+    if "ro" in c:
+        return run_readonly(c["ro"])
     if "ops" in c:
         return run_history(c["ops"])
     return run_history(OnlineGen(c["seed"], c["n"], tuple(c.get("kinds", "ACSD")), c.get("focus")))
@@ -672,7 +744,19 @@ def stepc(st):
 
 
 def to_coq(c, r):
+    if "ro" in c:
+        return "WObs [%s]" % "; ".join(vf.boolc(b) for b in r["flags"])
     return "WHist [%s]" % ";\n ".join(stepc(st) for st in r["steps"])
+
+
+def readonly_cases(rng, count):
+    out = []
+    for _ in range(count):
+        kind = rng.choice("ACD" + "S")
+        out.append({"ro": {"kind": kind, "dtype": rng.choice(sorted(SUPPORTED[kind])), "n": rng.choice([0, 1, 3]), "spare": rng.choice([1, 2, 4]),
+                           "irregular": kind != "S" and rng.random() < 0.7,
+                           "ops": [{"k": rng.choice(["arr", "wfm", "list", "load"]), "m": rng.choice([1, 1, 2])} for _ in range(rng.randrange(1, 4))]}})
+    return out
 
 
 def geom(s):
@@ -699,6 +783,8 @@ def step_sig(st):
 
 
 def sig(c, r):
+    if "ro" in c:
+        return "readonly|%s|%s" % (c["ro"]["kind"], c["ro"]["irregular"]), True
     sigs = sorted({step_sig(st) for st in r["steps"]})
     return "/".join(sigs)[:300], len(r["steps"]) > 0
 
@@ -723,6 +809,8 @@ def distribution(pairs):
 
 
 def finding_key(c, r):
+    if "ro" in c:
+        return "readonly|%s|%s" % (c["ro"]["kind"], "/".join(o["k"] for o in c["ro"]["ops"]))
     # the first step whose outcome class looks suspicious cannot be known here; use the op kinds + outcomes
     return "/".join("%s:%s" % (st["op"]["op"], st["res"].get("exc", "ok")) for st in r["steps"])[:200]
 
